@@ -2,7 +2,7 @@
 from mc.props import _cellprop, _masterprop
 from mc.worlds import mastercfg, mastermon
 
-BUDGET = {'quick': 240, 'thorough': 2400}
+BUDGET = {'quick': 600, 'thorough': 2400}
 
 
 class Spec(_masterprop.MasterSpec):
